@@ -336,6 +336,97 @@ class Program:
                 return self.bodies.get(pre + "<" + path[1:].replace(pre, ""))
         return None
 
+    # ---------------------------------------------------------------- inlining
+    def inlined(self, body, depth=2, pred=None, max_blocks=80):
+        """A copy of `body` in which calls to local, non-recursive functions are replaced by the callee's blocks
+        (classic MIR inlining: callee locals renumbered, arguments assigned, `Return` turned into an assignment of the
+        call's destination plus a goto). Rules that read CFG shape, dominance and provenance terms then see through
+        helper functions extracted by a refactoring. `pred(callee_body)` can restrict what is inlined."""
+        key = (body.path, depth, id(pred))
+        cache = self.__dict__.setdefault("_inl_cache", {})
+        if key in cache:
+            return cache[key]
+        import copy
+        d = copy.deepcopy(body.d)
+        d.setdefault("promoted", [])
+        d["inlined_from"] = []
+        work = [(bi, 0, (body.path,)) for bi in range(len(d["blocks"]))]      # (block, depth, call stack)
+        while work:
+            bi, dep, stack = work.pop(0)
+            t = d["blocks"][bi]["term"]
+            if t.get("k") != "Call" or not t.get("callee") or dep >= depth:
+                continue
+            c = t["callee"]
+            cp = (c.get("res") or {}).get("path") or c["path"]
+            cb = self.lookup(cp)
+            if cb is None or cb.kind not in ("Fn", "AssocFn") or cb.path in stack or len(cb.blocks) > max_blocks:
+                continue
+            if c.get("trait") and not c.get("res"):
+                continue                      # unresolved trait dispatch: not a known body
+            if pred is not None and not pred(cb):
+                continue
+            if len(t["args"]) != cb.argc:
+                continue
+            loff, boff, poff = len(d["locals"]), len(d["blocks"]), len(d["promoted"])
+            cd = copy.deepcopy(cb.d)
+
+            def rl(x):
+                """shift locals / blocks / promoted indices inside a callee JSON fragment"""
+                if isinstance(x, list):
+                    return [rl(y) for y in x]
+                if not isinstance(x, dict):
+                    return x
+                out = {}
+                for k_, v_ in x.items():
+                    if k_ == "l" and isinstance(v_, int) and "p" in x:
+                        out[k_] = v_ + loff
+                    elif k_ == "i" and isinstance(v_, int) and len(x) == 1:
+                        out[k_] = v_ + loff
+                    elif k_ == "promoted" and isinstance(v_, int):
+                        out[k_] = v_ + poff
+                    else:
+                        out[k_] = rl(v_)
+                return out
+            d["locals"].extend(cd["locals"])
+            d["promoted"].extend(cd.get("promoted") or [])
+            for dv in cd.get("debug", []):
+                dv2 = rl(dv)
+                dv2["name"] = dv2.get("name", "?")
+                dv2["inlined"] = cb.path
+                dv2.pop("arg", None)
+                d["debug"].append(dv2)
+            dest, cont, line = t["dest"], t["t"], t.get("line")
+            for cblk in cd["blocks"]:
+                nb = {"cleanup": cblk.get("cleanup", False), "stmts": rl(cblk["stmts"]), "inl": cb.path}
+                ct = rl(cblk["term"])
+                k = ct["k"]
+                if k == "Return":
+                    if cont is None:
+                        ct = {"k": "Unreachable", "line": ct.get("line", line)}
+                    else:
+                        nb["stmts"].append({"k": "Assign", "lhs": dest, "rv": {"k": "Use", "a": {"m": {"l": loff, "p": []}}}, "line": ct.get("line", line), "inl_ret": cb.path})
+                        ct = {"k": "Goto", "t": cont, "line": ct.get("line", line)}
+                else:
+                    for kk in ("t", "otherwise", "unwind"):
+                        if isinstance(ct.get(kk), int):
+                            ct[kk] = ct[kk] + boff
+                    if "targets" in ct:
+                        ct["targets"] = [[v_, tb + boff] for v_, tb in ct["targets"]]
+                nb["term"] = ct
+                d["blocks"].append(nb)
+            # the call site: assign the arguments, jump into the callee
+            blk = d["blocks"][bi]
+            for ai, a in enumerate(t["args"]):
+                blk["stmts"].append({"k": "Assign", "lhs": {"l": loff + 1 + ai, "p": []}, "rv": {"k": "Use", "a": a}, "line": line, "inl_arg": cb.path})
+            blk["term"] = {"k": "Goto", "t": boff, "line": line, "inl_call": cb.path}
+            d["inlined_from"].append(cb.path)
+            for nbi in range(boff, len(d["blocks"])):
+                work.append((nbi, dep + 1, stack + (cb.path,)))
+        nb_ = Body(body.path, d, body.crate)
+        nb_.inlined_from = d["inlined_from"]
+        cache[key] = nb_
+        return nb_
+
     def find(self, *needles, kind=None):
         """Bodies whose path contains all needles."""
         r = [b for p, b in self.bodies.items()
